@@ -40,8 +40,8 @@ ASSUMPTIONS = [
     "the starting point of a primal solver is the lower-cost one of qacc_warmstart and qacc_smooth (doc Warmstart: 'The lower-cost "
     "initialization is used'); with mjDSBL_WARMSTART it is qacc_smooth",
     "classification of a PGS/elliptic mismatch (it is a violation in every case; only the signature is decided). Block optimality is decided "
-    "by the decrease of the dual cost that the exact block optimum achieves (<= 1e-13 cost scale; measured: converged blocks <= 2.2e-17, "
-    "stalled blocks >= 7.3e-11); the whitened KKT residual (f in K, res in K*, res.f = 0; sign conditions for scalar rows) is recorded only. "
+    "by the decrease of the dual cost that the exact block optimum achieves (<= 1e-13 cost scale; measured, quick seeds 0..4: converged blocks "
+    "<= 1.4e-15, stalled blocks >= 7.3e-11); the whitened KKT residual (f in K, res in K*, res.f = 0; sign conditions for scalar rows) is recorded only. "
     "A non-optimal elliptic block is CONFIRMED as "
     "(a) apex-stall: block force exactly 0, res_n >= 0, res outside K* (res_n < |mu*res_T|) and solPGS' update rule at force < mjMINVAL "
     "(scalar normal step, clamp) returns 0 again; "
@@ -65,10 +65,10 @@ TOL_PGS = 1e-4
 CERT = 1e-12
 # PGS fixed-point analysis (only executed for a PGS/elliptic run that mismatches the reference)
 # a block is block-optimal when its EXACT block optimum lowers the dual cost by <= TOL_BLK_COST * cost scale (a whitened step of
-# ~4e-7 of the problem scale; PGS itself is only required to be 1e-9-stationary).  Measured over the elliptic scenes of quick seeds 0,1
-# (881 blocks of 79 mismatching runs): blocks of converged contacts <= 2.2e-17, stalled blocks >= 7.3e-11 - nothing in between
+# ~4e-7 of the problem scale; PGS itself is only required to be 1e-9-stationary).  Measured over quick seeds 0..4 (186 mismatching
+# PGS/elliptic runs): blocks of converged contacts <= 1.4e-15, stalled blocks >= 7.3e-11 - nothing in between
 TOL_BLK_COST = 1e-13
-# 'the engine's own block update does not move the block': whitened move <= TOL_BLK_MOVE * (|f sqrt(R)| + x scale) (measured <= 7.3e-11)
+# 'the engine's own block update does not move the block': whitened move <= TOL_BLK_MOVE * (|f sqrt(R)| + x scale) (measured <= 7.3e-11, seeds 0..4)
 TOL_BLK_MOVE = 1e-8
 
 
